@@ -262,7 +262,7 @@ def _same_attr_pairs(pm, pi, uris, binds):
             and all(x[0] == y[0] and _same_attr_value(x[1], y[1], uris, binds) for x, y in zip(pm, pi)))
 
 
-def _same_denoted(m, i, uris, binds):
+def _same_denoted(m, i, uris, binds, raw=False):
     """equality of two parsed values, strict everywhere but in the text and the attribute values of
     generic elements and in the values of `Attributes` maps (prefix names, see above)"""
     if isinstance(m, dict) and isinstance(i, dict):
@@ -273,12 +273,16 @@ def _same_denoted(m, i, uris, binds):
             return (am.keys() == ai.keys() and all(am[k] == ai[k] for k in am if k not in ("text", "children", "attrs"))
                     and _same_generic_text(am["text"], ai["text"], uris, binds)
                     and _same_attr_pairs(am["attrs"], ai["attrs"], uris, binds)
-                    and _same_denoted(am["children"], ai["children"], uris, binds))
+                    and _same_denoted(am["children"], ai["children"], uris, binds, raw))
         if set(m) == {"attrs"}:
             return _same_attr_pairs(m["attrs"], i["attrs"], uris, binds)
-        return all(_same_denoted(m[k], i[k], uris, binds) for k in m)
+        if raw and set(m) == {"str"}:
+            # the raw text a converter could not convert (both sides warned): a QName-typed value that
+            # is no valid `prefix:local` keeps the generated prefix in its text
+            return _same_generic_text(m["str"], i["str"], uris, binds)
+        return all(_same_denoted(m[k], i[k], uris, binds, raw) for k in m)
     if isinstance(m, list) and isinstance(i, list):
-        return len(m) == len(i) and all(_same_denoted(x, y, uris, binds) for x, y in zip(m, i))
+        return len(m) == len(i) and all(_same_denoted(x, y, uris, binds, raw) for x, y in zip(m, i))
     return m == i
 
 
@@ -294,7 +298,8 @@ def cmp_roundtrip(mo, io, a):
     if "ok" in mo and "ok" in io:
         m, i = dict(mo["ok"]), dict(io["ok"])
         uris, binds = m.pop("prefixes", []), i.pop("bindings", {})
-        return m == i or _same_denoted(m, i, uris, binds)
+        raw = bool(m.get("warnings")) and bool(i.get("warnings"))
+        return m == i or _same_denoted(m, i, uris, binds, raw)
     return mo == io
 
 
